@@ -39,7 +39,9 @@ EXPLANATION = (
     "agreement on the source records of a generated in-edge operator: every record stored under the `inputs` handed to add_op (followed "
     "through the private helpers of NetworkGraph._generate_edge_equation) has the keys CircuitIR._collect_ops reads ('sources', 'node', "
     "'var'), so the consumer's fallback to the source operator's declared output is never taken for an edge source; the consumer passes "
-    "the record's 'var' on to the '<node>/<op>/<var>' lookup.  NOT decided: "
+    "the record's 'var' on to the '<node>/<op>/<var>' lookup.  R6 no local of a loop over self.connections / self.populations in "
+    "CircuitTemplate is bound under a condition of the current element, read outside it and reset only in front of the loop (shared "
+    "lint stale_loop_carry with positive/negative controls): every connection is compiled on its own.  NOT decided: "
     "numerical equality of trajectories, the semantics of numpy/einsum (trusted), edge templates with more than the enumerated forms, "
     "user edge dictionaries that themselves contain source_idx/target_idx."
 )
@@ -717,13 +719,26 @@ def r3_population_params(ctx, rid):
     if len(alts) < 2:
         raise AnalysisError(f"{rid}: expected several definitions of `{newname}` (per-unit / replicated / default)")
 
+    from engine.util import normalise as _normalise
+
+    def resolved(e, fi):
+        """e with stable single-definition locals replaced by what they were bound to (`n, params = self.n, self.params`)"""
+        try:
+            return _normalise(ctx, fi, e) if getattr(e, "_parent", None) is not None else e
+        except AnalysisError:
+            return e
+
     def self_n(e, fi):
-        return is_attr_of(e, fi.self_name or selfn, "n")
+        return is_attr_of(resolved(e, fi), fi.self_name or selfn, "n")
+
+    def undecided(e, fi):
+        """a bare local that could not be traced to one value: neither self.n nor positively something else"""
+        return isinstance(resolved(e, fi), ast.Name)
 
     def pval_info(name_node, fi):
-        """`pval` -> the subscript `self.params[key]` it was read from"""
+        """`pval` -> the subscript `self.params[key]` it was read from (self.params possibly held in a local)"""
         v = single_def_value(ctx, fi, name_node) if isinstance(name_node, ast.Name) else name_node
-        if isinstance(v, ast.Subscript) and is_attr_of(v.value, fi.self_name or selfn, "params"):
+        if isinstance(v, ast.Subscript) and is_attr_of(resolved(v.value, fi), fi.self_name or selfn, "params"):
             return v
         return None
 
@@ -755,6 +770,8 @@ def r3_population_params(ctx, rid):
             x, cnt = rep
             if self_n(cnt, fi):
                 ctx.ok(rid, fi, d, f"`{norm(x)}` is replicated self.n times", label=f"replicate: {norm(d)}")
+            elif undecided(cnt, fi):
+                raise AnalysisError(f"{rid}: cannot trace the replication count `{norm(cnt)}` in `{what}` to one value (unrecognised form)")
             else:
                 ctx.violation(rid, fi, d, f"`{norm(x)}` is replicated `{norm(cnt)}` times instead of self.n: the population variable would not have one "
                                           f"entry per unit", label=f"replicate: {norm(d)}")
@@ -796,6 +813,8 @@ def r3_population_params(ctx, rid):
         t, pol, other = lens[0]
         facts = {"guard": ("" if pol else "not ") + norm(t)}
         holds_eq = (isinstance(t.ops[0], ast.Eq) and pol) or (isinstance(t.ops[0], ast.NotEq) and not pol)
+        if holds_eq and undecided(other, fi):
+            raise AnalysisError(f"{rid}: cannot trace `{norm(other)}` in the length test `{norm(t)}` to one value (unrecognised form)")
         if holds_eq and self_n(other, fi):
             ctx.ok(rid, fi, d, f"a parameter of length self.n is used element by element in order (`{norm(v)}`)", facts, label=f"per-unit: {norm(d)}")
         else:
@@ -863,9 +882,9 @@ def r3_population_params(ctx, rid):
         raise AnalysisError(f"{rid}: expected one store of var_data['shape']")
     v = shp[0].value
     good = isinstance(v, ast.Tuple) and len(v.elts) == 1 and (
-        _is_self_n(v.elts[0], selfn) or (isinstance(v.elts[0], ast.Call) and call_name(v.elts[0]) == "len" and len(v.elts[0].args) == 1
+        self_n(v.elts[0], f) or (isinstance(v.elts[0], ast.Call) and call_name(v.elts[0]) == "len" and len(v.elts[0].args) == 1
                                          and isinstance(v.elts[0].args[0], ast.Name) and v.elts[0].args[0].id == newname))
-    if good and cfg.dominates(store, shp[0]) or good and _is_self_n(v.elts[0], selfn):
+    if good and cfg.dominates(store, shp[0]) or good and self_n(v.elts[0], f):
         ctx.ok(rid, f, shp[0], "the shape is the length of the expanded value", nontrivial=False)
     else:
         ctx.violation(rid, f, shp[0], f"the shape `{norm(v)}` is not (len(new value),) / (self.n,): shape and value of the population variable disagree")
@@ -873,8 +892,10 @@ def r3_population_params(ctx, rid):
           and s.targets[0].attr == "length"]
     if len(ln) != 1:
         raise AnalysisError(f"{rid}: expected one store of vec_node.length")
-    if _is_self_n(ln[0].value, selfn):
+    if self_n(ln[0].value, f):
         ctx.ok(rid, f, ln[0], "the vectorized node's length is self.n", nontrivial=False)
+    elif undecided(ln[0].value, f):
+        raise AnalysisError(f"{rid}: cannot trace the node length `{norm(ln[0].value)}` to one value (unrecognised form)")
     else:
         ctx.violation(rid, f, ln[0], f"the vectorized node's length is `{norm(ln[0].value)}`, not self.n")
     # self.n is the constructor's n
@@ -1233,10 +1254,81 @@ def r5_source_records(ctx, rid):
         raise AnalysisError(f"{rid}: only {n_rec} source records found for the in-edge operator (the records dict is no longer followed)")
 
 
+# ------------------------------------------------------------------------------------------------
+# R6 per-connection / per-population state does not leak into the next element (shared lint stale_loop_carry)
+# ------------------------------------------------------------------------------------------------
+
+_R6_CONTROL = '''
+def positive(self, labels):
+    edges = []
+    edge_ir = None
+    for conn in self.connections:
+        target = labels[conn.target]
+        if conn.edge is not None:
+            edge_ir = conn.edge.apply(values={})
+        edges.append((conn.source, target, {'edge_ir': edge_ir}))
+    return edges
+
+
+def negative(self, labels):
+    edges = []
+    for conn in self.connections:
+        edge_ir = None
+        target = labels[conn.target]
+        if conn.edge is not None:
+            edge_ir = conn.edge.apply(values={})
+        edges.append((conn.source, target, {'edge_ir': edge_ir}))
+    return edges
+'''
+
+
+def r6_no_state_carried_between_connections(ctx, rid):
+    """Each Connectivity / PopulationTemplate is compiled on its own: the explicit network it stands for has one independent set of
+    edges per connection.  A local that is bound only under a condition of the current connection (its coupling edge, its delay, its
+    variable map), read outside that condition and reset only in front of the loop hands the previous connection's value to a
+    connection that does not have one - the population circuit then differs from the explicit node-and-edge network.  Decided by the
+    shared lint `stale_loop_carry` over every method of CircuitTemplate that loops over self.connections / self.populations; a
+    synthetic positive and negative control run with it."""
+    from ._pitfall_lints import stale_loop_carry
+    from engine.srcmodel import FunctionInfo, set_parents
+    fe = ctx.repo.get_module(FE)
+    tree = ast.parse(_R6_CONTROL)
+    set_parents(tree)
+    ctrl = {fn.name: FunctionInfo(name=fn.name, qualname=f"<C16-R6 control>.{fn.name}", module=fe, node=fn) for fn in tree.body
+            if isinstance(fn, ast.FunctionDef)}
+    pos, neg = stale_loop_carry(ctx, [ctrl["positive"]]), stale_loop_carry(ctx, [ctrl["negative"]])
+    if len(pos) != 1 or neg:
+        raise AnalysisError(f"{rid}: the stale-loop-carry lint failed its controls (positive {len(pos)}, negative {len(neg)})")
+    cls = ctx.repo.get_class(FE, "CircuitTemplate")
+    funcs = []
+    for m in cls.methods.values():
+        selfn = m.self_name
+        loops = [l for l in walk_shallow(m.node) if isinstance(l, ast.For)
+                 and any(is_attr_of(x, selfn or "", "connections") or is_attr_of(x, selfn or "", "populations") for x in ast.walk(l.iter))]
+        if loops:
+            funcs.append((m, loops))
+    if not any(any(is_attr_of(x, m.self_name or "", "connections") for l in loops for x in ast.walk(l.iter)) for m, loops in funcs):
+        raise AnalysisError(f"{rid}: no method of CircuitTemplate loops over self.connections any more (anchor vanished)")
+    for m, loops in funcs:
+        hits = stale_loop_carry(ctx, [m])
+        # the helpers the loop body was split into are read as part of the method
+        mv = R.view(ctx, m)
+        if mv is not m and getattr(mv, "inlined_helpers", None):
+            seen = {norm(h[1]) for h in hits}
+            hits += [h for h in stale_loop_carry(ctx, [mv]) if norm(h[1]) not in seen]
+        for _, node, why in hits:
+            ctx.violation(rid, m, node, f"{why}: a connection/population without this attribute is compiled with the one of an earlier "
+                                        f"connection, unlike the explicit network", label=f"carried between elements: {norm(node)}")
+        if not hits:
+            ctx.ok(rid, m, loops[0], f"no local of the {len(loops)} loop(s) over connections/populations is carried from one element to the next "
+                                     f"under a condition (controls: positive matched, negative silent)", label="no state carried between connections/populations")
+
+
 RULES = [
     ("C16-R1", r1_index_roles, 30),
     ("C16-R2", r2_coupling_helpers, 14),
     ("C16-R3", r3_population_params, 6),
     ("C16-R4", r4_collision_and_forwarding, 10),
     ("C16-R5", r5_source_records, 3),
+    ("C16-R6", r6_no_state_carried_between_connections, 1),
 ]
